@@ -588,8 +588,8 @@ class DBusObject :
 
                 if ifc:
                     for p in ifc.properties.values():
-                        addp(p)
-                    break
+                        if p.pname not in r:
+                            addp(p)
 
         else:
             for cache in self._iterIFaceCaches():
